@@ -300,6 +300,12 @@ def run(chk: Check):
     rng = random.Random(chk.seed)
     regen_ok = regen_or_report(chk)
     proved = chk.prove(FAM, "Props.C02", THEOREMS) if regen_ok else False
+    if proved and chk.tier == "thorough":          # independent checker; axioms of every loaded library reported
+        ok, out = FAM.coqchk("Props.C02")
+        chk.cov["coqchk"] = " ".join(out.split())[-1500:]
+        if not ok:
+            chk.broken_obligation("coqchk rejected Props.C02", out[-600:])
+            proved = False
 
     gen = list(gen_cases(rng, chk.tier))
     cases = [g[0] for g in gen]
@@ -310,6 +316,13 @@ def run(chk: Check):
     coq_cases = []
     idx = []
     for i, ((case, tag), res) in enumerate(zip(gen, results)):
+        if res is not None and res.get("manager_died"):
+            prev = i - getattr(run_worker, "last_nproc", 1)
+            seq = ([cases[prev]] if prev >= 0 else []) + [case]
+            chk.spec_failure("manager:died", f"the MessageManager process exited while serving case {i} "
+                                             f"(or cleaning up after the previous one): {res['harness_error']}",
+                             dict(sequence=seq, universe=PROBES))
+            continue
         if res is None or "harness_error" in res:
             chk.broken_obligation("harness failure running the implementation",
                                   f"case {i} {json.dumps(case)[:300]}: {res and res.get('harness_error')} {res and res.get('tb')}")
@@ -368,6 +381,12 @@ def run(chk: Check):
 def replay(path: str) -> int:
     d = json.load(open(path))
     r = d["replay"]
+    if "sequence" in r:
+        res, _ = run_worker("c02", r["sequence"] + [dict(ops=[], ctx=None)], dict(universe=r.get("universe", PROBES)), nproc=1)
+        print(json.dumps(res, indent=1)[:3000])
+        died = any(x.get("manager_died") for x in res)
+        print("manager died" if died else "manager survived")
+        return 1 if died else 0
     case = dict(ops=r["ops"], ctx=r.get("ctx"))
     res, _ = run_worker("c02", [case], dict(universe=r.get("universe", PROBES)))
     print(json.dumps(dict(case=case, observed=res[0]), indent=1))
